@@ -57,10 +57,15 @@ BasePieces == <<
                       [Fd("oldest", Nm("Int"), <<>>) EXCEPT !.dep = TRUE, !.reason = "<empty>"],
                       [Fd("ancient", Nm("Int"), <<>>) EXCEPT !.dep = TRUE, !.reason = "<null>"],
                       [Fd("secret", Nm("String"), <<>>) EXCEPT !.hidden = TRUE],
+                      \* hidden AND carrying another directive
+                      [Fd("ghost", Nm("String"), <<>>) EXCEPT !.hidden = TRUE, !.dep = TRUE, !.reason = "gone"],
                       Fd("grid", Li(Li(Nn(Nm("Custom")))), <<>>), Fd("fav", Nm("Color"), <<>>) >>],
   [Piece(FALSE, "OBJECT", "Post") EXCEPT !.ifaces = <<"Node">>,
         !.fields = << Fd("id", Nn(Nm("ID")), <<>>), Fd("label", Nm("String"), <<ArD("up", Nm("Boolean"), L("bool", TRUE))>>), Fd("author", Nm("User"), <<>>) >>],
   [Piece(FALSE, "UNION", "Item") EXCEPT !.members = <<"User", "Post">>],
+  \* a directive that exists in the SDL only (no implementation is registered for it)
+  [Piece(FALSE, "DIRECTIVE", "key") EXCEPT !.locs = <<"OBJECT">>, !.impl = "none",
+        !.args = << Ar("fields", Nn(Nm("String"))), ArD("resolvable", Nm("Boolean"), L("bool", TRUE)) >>],
   [Piece(FALSE, "DIRECTIVE", "tag") EXCEPT !.locs = <<"FIELD_DEFINITION", "OBJECT", "SCHEMA">>, !.args = << ArD("n", Nm("Int"), L("int", 1)), Ar("s", Li(Nm("String"))), ArD("z", Nm("String"), L("null", 0)) >>],
   [Piece(FALSE, "OBJECT", "Query") EXCEPT !.fields = << Fd("node", Nm("Node"), <<Ar("id", Nn(Nm("ID")))>>), Fd("items", Li(Nm("Item")), <<>>), Fd("me", Nm("User"), <<>>) >>],
   [Piece(FALSE, "OBJECT", "Mut") EXCEPT !.fields = << Fd("touch", Nm("Boolean"), <<Ar("when", Nm("DateTime"))>>) >>],
@@ -162,7 +167,7 @@ W_EnumUnique(n) == \A i \in Idxs(n) : n[i].kind = "ENUM" => NoDupNames(n[i].valu
 W_DefsUnique(ps) == \A i, j \in Idxs(ps) : (i # j /\ ~ps[i].ext /\ ~ps[j].ext /\ ps[i].kind # "SCHEMA" /\ ps[j].kind # "SCHEMA") =>
                        ~(ps[i].name = ps[j].name /\ ((ps[i].kind = "DIRECTIVE") = (ps[j].kind = "DIRECTIVE")))
 W_ScalarsImplemented(n) == \A i \in Idxs(n) : n[i].kind = "SCALAR" => n[i].impl = "ok"
-W_HooksAwaitable(n) == \A i \in Idxs(n) : n[i].kind = "DIRECTIVE" => n[i].impl = "ok"
+W_HooksAwaitable(n) == \A i \in Idxs(n) : n[i].kind = "DIRECTIVE" => n[i].impl \in {"ok", "none"}
 W_Extensions(ps) == \A i \in Idxs(ps) : ps[i].ext =>
    LET b == BaseIdx(ps, i)
        others == SelectSeq([j \in Idxs(ps) |-> j], LAMBDA j : j # i /\ ps[j].name = ps[i].name /\ ps[j].kind = ps[i].kind) IN
